@@ -5,7 +5,7 @@
 # Run from a built /verif (or a `vp run` snapshot: builds first).
 W="${EVALREPO:-/tmp/evalrepo2}"
 HERE="$(cd "$(dirname "$0")/.." && pwd)"
-cd "$HERE/lean" && lake build crmodel CR.All CR.Tie.Gen CR.Tie.Gen2 CR.Tie.Rdfs CR.Tie.RdfsLoop CR.Tie.Tad CR.Tie.TransferGen CR.Tie.TransferTad CR.Tie.Check CR.Extracted.Show >/dev/null 2>&1
+cd "$HERE/lean" && lake build crmodel CR.All CR.Tie.Gen CR.Tie.Gen2 CR.Tie.Rdfs CR.Tie.RdfsLoop CR.Tie.Tad CR.Tie.TransferGen CR.Tie.TransferTad CR.Tie.Check CR.Tie.PruneStates CR.Extracted.Show >/dev/null 2>&1
 cd "$HERE"
 for D in refactorings/*.diff; do
   git -C $W checkout -q -- . ; git -C $W apply "$HERE/$D" || { echo "$D: patch does not apply"; continue; }
